@@ -187,3 +187,39 @@ func H_C03_rollinglogger() {
 	}
 	vReach("end")
 }
+
+//verif:witness H_C03_layoutrace end
+//verif:bound C03 all two goroutines formatting one event each through the same text or JSON layout at the same time; every access to a package-level variable of the library and every call of a library function is a scheduling point (1 pre-emptive switch), sync.Pool in LIFO order: each returned line is exactly what its event yields alone
+//verif:engine-only H_C03_layoutrace
+func H_C03_layoutrace() {
+	vOpt("loop", 400)
+	vOpt("globalrace", 1)
+	vOpt("callrace", 1)
+	vOpt("schedall", 1)
+	vOpt("preempt", 1)
+	var lay Layout = &TextLayout{BaseLayout{FileLineLength: 48}}
+	if vChoose("layout", 2) == 1 {
+		lay = &JSONLayout{BaseLayout{FileLineLength: 48}}
+	}
+	mk := func(g int) *Event {
+		return &Event{Level: [2]Level{InfoLevel, ErrorLevel}[g], Time: time.Unix(1700000000+int64(g), 0).UTC(), File: [2]string{"a.go", "b.go"}[g], Line: 10 + g,
+			Tag: [2]string{"_t_a", "_t_b"}[g], CtxString: [2]string{"", "cs"}[g], Fields: []Field{Msg([2]string{"first", "second"}[g]), Ints("v", []int{g, g})}}
+	}
+	var want, got [2][]byte
+	for g := 0; g < 2; g++ {
+		want[g] = append([]byte(nil), lay.ToBytes(mk(g))...)
+	}
+	done := make(chan int, 2)
+	for g := 0; g < 2; g++ {
+		go func(g int) {
+			got[g] = append([]byte(nil), lay.ToBytes(mk(g))...)
+			done <- 1
+		}(g)
+	}
+	<-done
+	<-done
+	for g := 0; g < 2; g++ {
+		vAssert(vBytesEqual(got[g], want[g]), "concurrently-formatted-line-is-the-events-own")
+	}
+	vReach("end")
+}
